@@ -4,6 +4,20 @@ from autograd import jacobian
 from scipy.integrate import quad as squad
 
 
+def _weight_at(x, ikwargs):
+    """Value at x of the weight function scipy.integrate.quad multiplies the integrand with."""
+    weight = ikwargs.get('weight')
+    if weight is None:
+        return 1.0
+    if weight == 'cos':
+        return np.cos(ikwargs['wvar'] * x)
+    if weight == 'sin':
+        return np.sin(ikwargs['wvar'] * x)
+    if weight == 'cauchy':
+        return 1.0 / (x - ikwargs['wvar'])
+    raise ValueError("Obs valued integration limits are not supported for weight '%s' (the weight depends on the limits)." % (weight))
+
+
 def quad(func, p, a, b, **kwargs):
     '''Performs a (one-dimensional) numeric integration of f(p, x) from a to b.
 
@@ -77,7 +91,7 @@ def quad(func, p, a, b, **kwargs):
 
     for i in range(2):
         if isobs_b[i]:
-            derivint.append(bsign[i] * func(pval, bval[i]))
+            derivint.append(bsign[i] * func(pval, bval[i]) * _weight_at(bval[i], ikwargs))
 
     if len(derivint) == 0:
         return integration_result
